@@ -3,4 +3,4 @@
 From LSF Require Import PyStr GenTypes Retry_gen.
 Open Scope string_scope.
 
-Lemma pin_handle_error_ok : pin_handle_error = "c1d837b1277222f2". Proof. reflexivity. Qed.
+Lemma pin_handle_error_ok : pin_handle_error = "6035824b45db5f65". Proof. reflexivity. Qed.
